@@ -933,6 +933,14 @@ func (it *Interp) execFor(fr *frame, x For) ctl {
 			if c == ctlReturn {
 				return c
 			}
+			// the number of evaluations of a range operand is unspecified: a body that changes
+			// what the operand denotes makes the program undefined
+			if vr, ok := x.Over.(VarRef); ok {
+				now := it.lookup(fr, vr.Name).v
+				if now.Sl != over.Sl || now.S != over.S {
+					it.undef("range operand changed during the loop")
+				}
+			}
 		}
 		return ctlNone
 	}
